@@ -75,14 +75,23 @@ rowtext = z3.Function("row_text", I, I, S)                      # first j cells 
 getitem = z3.Function("py_getitem", PyObj, PyObj, PyObj)
 
 REG.add(Contract("lib:get_column_fmt", params={"j": INT}, returns=lambda c: VStr(colfmt(c.a["j"].t)), assumed=True, noraise=True,
-                 note="closure of writer.write: column_fmt.get(j, fmt) - a function of j", properties=("C01",)))
+                 note="closure of writer.write: column_fmt.get(j, fmt) - a function of j", properties=("C01", "C11", "C12")))
 REG.add(Contract("lib:get_left_spacing", params={"j": INT}, assumed=True, noraise=True,
                  returns=lambda c: VStr(z3.If(c.a["j"].t == 0, z3.String("lhs_spacer"), z3.String("spacer"))),
-                 note="closure of writer.write: lhs_spacer for column 0, spacer otherwise", properties=("C01",)))
+                 note="closure of writer.write: lhs_spacer for column 0, spacer otherwise", properties=("C01", "C11", "C12")))
 REG.add(Contract("lib:format_data_section_line", params={"n": OBJ, "fmt": STR, "spacing_chars": STR}, assumed=True, noraise=True,
                  returns=lambda c: VStr(fmtcell(c.a["n"].t, c.a["fmt"].t, c.a["spacing_chars"].t)),
-                 note="the cell formatter closure, verified separately as W5", properties=("C01",)))
-REG.add(Contract("lib:textwrap.TextWrapper", params={"width": "any"}, returns=OBJ, assumed=True, noraise=True, properties=("C01",)))
+                 note="the cell formatter closure, verified separately as W5", properties=("C01", "C11", "C12")))
+def _wrap_width_pre(c):
+    w, dw = c.a.get("width"), c.st.env.get("data_width")
+    if isinstance(w, VInt) and isinstance(dw, VInt):
+        return [("lines-are-wrapped-at-the-requested-data_width (a field as wide as data_width is never cut)", w.t == dw.t)]
+    return [("lines-are-wrapped-at-the-requested-data_width (a field as wide as data_width is never cut)", z3.BoolVal(False))]
+
+
+REG.add(Contract("lib:textwrap.TextWrapper", params={"width": "any"}, returns=OBJ, assumed=True, noraise=True, requires=_wrap_width_pre,
+                 note="T-wrap: TextWrapper(width=w) breaks only at whitespace provided every token is <= w long",
+                 properties=("C01", "C12", "C11")))
 
 
 def w7_cell(c, i, j):
@@ -159,5 +168,5 @@ W7 = REG.add(Contract(
     loop_hints={1: lambda c: [(c.g("ax:rowtext-step"), [c.v("i").t, c.i])]},
     ghost_init=w7_init, hooks={'file_object.write(line + "\\n")': w7_write_hook},
     verify_with=w7_verify, may_raise=["AttributeError", "Any"], free_default=True,
-    properties=("C01",)))
+    properties=("C01", "C11", "C12")))
 W7.note = "wrapped output goes through textwrap (T-wrap), outside the contract; data[i] is an opaque numpy index"
